@@ -1,5 +1,6 @@
 import PycModel.Spec.Brackets
 import PycModel.Properties.C06
+import PycModel.Proofs.StreamRel
 /-!
 # C18 — structurally malformed input is always rejected
 
@@ -88,5 +89,57 @@ theorem duplicate_breaks_balance (pre post : List BTok) (b : BTok) (hb : b ≠ .
     have := balanced_counts _ h k
     simp [opens, closes, List.countP_append, List.countP_cons] at this ⊢
     omega
+
+
+/-- **(a) lexically malformed input is always rejected — all inputs.**  If the parser model accepts
+an event stream, then up to its end-of-input event the stream consists of token events only: there
+is no lexer error (illegal character such as `@`, `` ` ``, `\\`; a comment; a lone quote; a
+malformed literal; a broken `#line` / `#pragma`) and no non-terminating scan anywhere before the
+end.  (Proved for every fuel, every event stream and every production through `run_pres`.) -/
+theorem ok_no_lex_error (fuel : Nat) (evs : List PycModel.SEv) (v : PycModel.Val) (sf : PycModel.PState)
+    (h : PycModel.parseCore fuel evs = (.ast v, some sf)) :
+    ∃ toks rest, evs = toks ++ rest ∧ (∀ e ∈ toks, e.isTok = true) ∧ (rest = [] ∨ ∃ r, rest = .eof :: r) := by
+  obtain ⟨t, r, e, ht, hr, _⟩ := PycModel.parse_ok_stream_shape fuel evs v sf h
+  exact ⟨t, r, e, ht, hr⟩
+
+/-- in particular an error event anywhere before the end makes the parse fail -/
+theorem lex_error_rejects (fuel : Nat) (pre post : List PycModel.SEv) (v : PycModel.Val) (sf : PycModel.PState)
+    (hpre : ∀ e ∈ pre, e.isTok = true) :
+    PycModel.parseCore fuel (pre ++ .err :: post) ≠ (.ast v, some sf) := by
+  intro h
+  obtain ⟨t, r, e, ht, hr⟩ := ok_no_lex_error fuel _ v sf h
+  -- the first non-token event of `pre ++ err :: post` is `err`, the first of `t ++ r` is `eof` (or none)
+  have key : ∀ (a b : List PycModel.SEv) (x y : List PycModel.SEv),
+      (∀ e ∈ a, e.isTok = true) → (∀ e ∈ b, e.isTok = true) →
+      a ++ PycModel.SEv.err :: x = b ++ y → (y = [] ∨ ∃ r', y = PycModel.SEv.eof :: r') → False := by
+    intro a
+    induction a with
+    | nil =>
+      intro b x y _ hb he hy
+      cases b with
+      | nil =>
+        simp at he
+        rcases hy with hy | ⟨r', hy⟩ <;> (subst hy; simp at he)
+      | cons c cs =>
+        simp at he
+        have := hb c (by simp)
+        rw [← he.1] at this
+        simp [PycModel.SEv.isTok] at this
+    | cons c cs ih =>
+      intro b x y ha hb he hy
+      cases b with
+      | nil =>
+        simp at he
+        rcases hy with hy | ⟨r', hy⟩
+        · subst hy; simp at he
+        · subst hy
+          simp at he
+          have := ha c (by simp)
+          rw [he.1] at this
+          simp [PycModel.SEv.isTok] at this
+      | cons d ds =>
+        simp at he
+        exact ih ds x y (fun e h' => ha e (by simp [h'])) (fun e h' => hb e (by simp [h'])) (by simpa using he.2) hy
+  exact key pre t post r hpre ht e hr
 
 end PycModel.C18
